@@ -37,6 +37,22 @@ def shapes(deep):
         add('SELECT a, b FROM t WHERE b %sIN (SELECT c FROM v WHERE v.a = t.a)' % neg, neg + 'samename-in')
     add('SELECT a, (SELECT MAX(c) FROM v WHERE v.a = t.a) AS s FROM t', 'samename-scalar-select')
     add('SELECT a, b FROM t WHERE b = (SELECT MAX(c) FROM v WHERE v.a = t.a)', 'samename-scalar')
+    # the inner table w(x,b) has a column named like an OUTER column and uses it unqualified: it is the inner column (innermost scope wins)
+    add('SELECT a, (SELECT COUNT(b) FROM w WHERE w.x = t.a) AS s FROM t', 'innername-scalar-select-count')
+    add('SELECT a, (SELECT MAX(b) FROM w WHERE w.x > t.b) AS s FROM t', 'innername-scalar-select-max')
+    add('SELECT a, b FROM t WHERE b >= (SELECT MIN(b) FROM w WHERE w.x = t.a)', 'innername-scalar')
+    add('SELECT a, b FROM t WHERE b > (SELECT MIN(w.x) FROM w WHERE w.b = t.a)', 'innername-operand-vs-correlation-key')
+    add('SELECT a, b FROM t WHERE b >= (SELECT MIN(b) FROM w WHERE w.b = t.a)', 'innername-operand-and-argument')
+    for neg in ('', 'NOT '):
+        add('SELECT a, b FROM t WHERE %sEXISTS (SELECT 1 FROM w WHERE b = t.a)' % neg, neg + 'innername-exists')
+        add('SELECT a, b FROM t WHERE a %sIN (SELECT b FROM w WHERE x >= t.b)' % neg, neg + 'innername-in')
+    # a subquery predicate ABOVE an outer join, keyed on the NULL-supplying or on the preserved side: the semi / anti join it becomes filters the joined rows
+    for jt in ('LEFT', 'RIGHT', 'FULL'):
+        for col in ('u.c', 't.b'):
+            tagc = 'nullable' if (col == 'u.c') == (jt == 'LEFT') or jt == 'FULL' else 'preserved'
+            add('SELECT t.a, t.b, u.c FROM t %s JOIN u ON t.a = u.x WHERE %s IN (SELECT c FROM v)' % (jt, col), 'in-above-%s-join-%s' % (jt, tagc))
+            add('SELECT t.a, t.b, u.c FROM t %s JOIN u ON t.a = u.x WHERE EXISTS (SELECT 1 FROM v WHERE v.c = %s)' % (jt, col), 'exists-above-%s-join-%s' % (jt, tagc))
+            add('SELECT t.a, t.b, u.c FROM t %s JOIN u ON t.a = u.x WHERE NOT EXISTS (SELECT 1 FROM v WHERE v.c = %s)' % (jt, col), 'notexists-above-%s-join-%s' % (jt, tagc))
     if deep:
         base = ['EXISTS (SELECT 1 FROM u WHERE u.x = t.a)', 'a IN (SELECT x FROM u)', 'b NOT IN (SELECT c FROM u)', 'b = (SELECT MAX(c) FROM u WHERE u.x = t.a)',
                 'NOT EXISTS (SELECT 1 FROM u WHERE u.c = t.b)']
@@ -44,6 +60,15 @@ def shapes(deep):
             for op in ('AND', 'OR'):
                 add('SELECT a, b FROM t WHERE (%s) %s (%s)' % (x, op, y), 'combined-' + op)
     return S
+
+
+def known_alts(sql, tag):
+    # known finding: inside an IN subquery an outer reference (t.a, t.b) is captured by the inner table's column of the same name
+    if 'samename-in' in tag:
+        return {'in_subquery_outer_ref_captured_by_same_named_inner_column': sql.replace('v.a = t.a', 'v.a = v.a')}
+    if 'innername-in' in tag:
+        return {'in_subquery_outer_ref_captured_by_same_named_inner_column': sql.replace('x >= t.b', 'x >= w.b')}
+    return None
 
 
 def run(rep):
@@ -70,21 +95,35 @@ def run(rep):
     for (tr, ur) in pairs:
         db = {'tables': [table('t', [['a', 'int64'], ['b', 'int64']], [list(r) for r in tr]),
                          table('u', [['x', 'int64'], ['c', 'int64']], [list(r) for r in ur]),
-                         table('v', [['a', 'int64'], ['c', 'int64']], [list(r) for r in ur])]}
+                         table('v', [['a', 'int64'], ['c', 'int64']], [list(r) for r in ur]),
+                         table('w', [['x', 'int64'], ['b', 'int64']], [list(r) for r in ur])]}
         st = []
         for sql, tag in sh:
-            alts = None
-            if 'samename-in' in tag:
-                # known finding: inside an IN subquery the outer reference t.a is captured by the inner column of the same name
-                alts = {'in_subquery_outer_ref_captured_by_same_named_inner_column': sql.replace('v.a = t.a', 'v.a = v.a')}
+            alts = known_alts(sql, tag)
             st.append({'sql': sql, 'tag': tag, 'mode': 'prod', 'nontrivial': True, 'alts': alts})
             st.append({'sql': sql, 'tag': tag + '|nodecorr', 'mode': 'rules', 'rules': NODECORR, 'nontrivial': True, 'alts': alts})
             if quick and 'scalar' in tag:
                 continue
             st.append({'sql': sql, 'tag': tag + '|noopt', 'mode': 'noopt', 'nontrivial': True, 'alts': alts})
         units.append({'db': db, 'stmts': st})
+    # storage: the same shapes over Parquet with one and two rows per row group (every inner scan declares several partitions), larger fixed tables
+    big_t = [[k, ((k * 7) % 5 if k % 4 else None) if k is not None else 2] for k in [None, 1, 2, 3, 4, 5, 6, 2, 3]]
+    big_u = [[(i * 3) % 7 if i % 5 else None, i % 4 if i % 3 else None] for i in range(11)]
+    pq_units = []
+    for rg in (1, 2):
+        kw = {'storage': 'parquet', 'rg': rg}
+        db = {'tables': [table('t', [['a', 'int64'], ['b', 'int64']], big_t, **kw), table('u', [['x', 'int64'], ['c', 'int64']], big_u, **kw),
+                         table('v', [['a', 'int64'], ['c', 'int64']], big_u, **kw), table('w', [['x', 'int64'], ['b', 'int64']], big_u, **kw)]}
+        st = []
+        for sql, tag in sh:
+            alts = known_alts(sql, tag)
+            for mode, extra in (('prod', {}), ('rules', {'rules': NODECORR}), ('noopt', {})):
+                st.append(dict({'sql': sql, 'tag': tag + '|parquet-rg%d|%s' % (rg, mode), 'mode': mode, 'nontrivial': True, 'alts': alts}, **extra))
+        for i in range(0, len(st), 40):
+            pq_units.append({'db': db, 'stmts': st[i:i + 40]})
+    units = pq_units + units
     rep.rule = ('outer t(a,b) = multisets of 1..%d rows, inner u(x,c) = multisets of 0..%d rows over {NULL,1,2}^2 (quick: every pair listed; thorough: every pair with <= 2 rows a side, 3-row outers with <= 1-row inners, 1-row outers with 3-row inners); [NOT] EXISTS (correlated on 1-2 equalities, on an inequality, '
-                'uncorrelated), [NOT] IN (correlated / uncorrelated), scalar MIN/MAX/COUNT/SUM subqueries under =,<,>= in WHERE and in the SELECT list%s; three executions each: production '
+                'uncorrelated), [NOT] IN (correlated / uncorrelated), scalar MIN/MAX/COUNT/SUM subqueries under =,<,>= in WHERE and in the SELECT list%s; an inner table that re-uses an outer column name unqualified; IN / EXISTS / NOT EXISTS above LEFT / RIGHT / FULL joins keyed on either side; all shapes again over 9- and 11-row Parquet tables with 1 and 2 rows per row group; three executions each: production '
                 'optimizer, production without FlattenDependentJoin/SubqueryDecorrelation (row-by-row executor), bound plan unoptimized; oracle SQLite 3.40' % (tmax, umax, '' if quick else ', pairs combined with AND/OR'))
     sqldiff.run(rep, units)
 
